@@ -75,6 +75,7 @@ func c05One(c *fw.Ctx, apis []c05API, id, s string) {
 			ok2 := fw.WithTimeout(60*time.Second, func() { c05Matrix(c, apis, s) })
 			if !ok2 {
 				c.Violate(fw.Violation{Key: "hang", What: "reader/printer did not return within 60 s (normal: microseconds)", Detail: fw.GoroutineDump()})
+				c.Runaway()
 			}
 		}
 	})
@@ -197,6 +198,26 @@ func c05Mutate(r *rand.Rand, s string) string {
 
 func c05Preamble(r *rand.Rand) string {
 	var sb strings.Builder
+	if r.Intn(12) == 0 {
+		// a chain of preamble lines in which every value mentions earlier placeholders several times: whatever the
+		// reader makes of such values, reading and printing the result must stay proportional to the text
+		n := 20 + r.Intn(30)
+		open, close := gen.Pick(r, [][2]string{{"[", "]"}, {"(list ", ")"}, {"{:a ", "}"}, {"#{", "}"}, {"'(", ")"}})[0], ""
+		switch open {
+		case "[":
+			close = "]"
+		case "(list ", "'(":
+			close = ")"
+		default:
+			close = "}"
+		}
+		sb.WriteString(";; $P0 [1 2]\n")
+		for i := 1; i <= n; i++ {
+			sb.WriteString(fmt.Sprintf(";; $P%d %s$P%d $P%d%s\n", i, open, i-1, gen.Pick(r, []int{i - 1, i - 1, max(0, i-2)}), close))
+		}
+		sb.WriteString(fmt.Sprintf("\n[$P%d $P%d]", n, n))
+		return sb.String()
+	}
 	n := r.Intn(4)
 	for i := 0; i < n; i++ {
 		switch r.Intn(8) {
